@@ -226,6 +226,46 @@ class PipeResult:
         self.hist = {}
         self.traces = []       # list of (header, [(op, obs)])
         self.errors = []
+        self.crash = None      # dict(case, script, stderr): the implementation brought the harness process down / hung it
+
+
+def _harness_dies(driver, cases, env, timeout):
+    """True (with stderr head) if the harness process exits non-zero or exceeds the timeout on these cases."""
+    try:
+        p = subprocess.run([os.path.join(BIN, "harness"), "run", driver], input=cases_to_text(cases), stdout=subprocess.DEVNULL,
+                           stderr=subprocess.PIPE, timeout=timeout, env=env, text=True)
+    except subprocess.TimeoutExpired:
+        return True, "harness did not finish within %d s (hang or unbounded loop)" % timeout
+    return p.returncode != 0, p.stderr[:1500]
+
+
+def find_crash(driver, cases, env, timeout=120):
+    """The harness died on this case list: narrow it down to one case and a minimal prefix of its operations."""
+    dies, err = _harness_dies(driver, cases, env, timeout)
+    if not dies:
+        return None
+    lo = list(cases)
+    while len(lo) > 1:
+        half = lo[:len(lo) // 2]
+        d, e = _harness_dies(driver, half, env, timeout)
+        if d:
+            lo, err = half, e
+        else:
+            rest = lo[len(lo) // 2:]
+            d, e = _harness_dies(driver, rest, env, timeout)
+            if not d:
+                break          # only the combination dies: keep the whole list
+            lo, err = rest, e
+    header, ops = lo[0]
+    a, b = 1, len(ops)
+    while a < b:
+        m = (a + b) // 2
+        d, e = _harness_dies(driver, [(header, ops[:m])], env, timeout)
+        if d:
+            b, err = m, e
+        else:
+            a = m + 1
+    return dict(case=cases.index(lo[0]) if lo[0] in cases else 0, header=header, script=ops[:a], stderr=err)
 
 
 def _big_stack():
@@ -247,11 +287,18 @@ def run_pipeline(driver, cases, bs, tag="run", model_driver=None, harness_env=No
     env = goenv()
     if harness_env:
         env.update(harness_env)
-    with open(sf) as fin, open(tf, "w") as fout:
-        p = subprocess.run([os.path.join(BIN, "harness"), "run", driver], stdin=fin, stdout=fout, stderr=subprocess.PIPE,
-                           timeout=timeout, env=env, text=True)
-    if p.returncode != 0:
-        res.errors.append("harness exit %d: %s" % (p.returncode, p.stderr[-2000:]))
+    try:
+        with open(sf) as fin, open(tf, "w") as fout:
+            p = subprocess.run([os.path.join(BIN, "harness"), "run", driver], stdin=fin, stdout=fout, stderr=subprocess.PIPE,
+                               timeout=timeout, env=env, text=True)
+        rc, errtxt = p.returncode, p.stderr
+    except subprocess.TimeoutExpired:
+        rc, errtxt = -1, "harness timeout"
+    if rc != 0:
+        # the implementation took the process down (fatal error, stack exhaustion) or hung it: find the script
+        res.crash = find_crash(driver, cases, env)
+        if res.crash is None:
+            res.errors.append("harness exit %d: %s" % (rc, errtxt[:2000]))
         return res
     # parse traces
     cur = None
